@@ -48,6 +48,51 @@ theorem setUpdate_append (s : DropSet) (xs ys : List Nat) :
     setUpdate (setUpdate s xs) ys = setUpdate s (xs ++ ys) := by
   simp [setUpdate, List.foldl_append]
 
+theorem setUpdate_of_subset (xs : List Nat) (d : DropSet) (h : ∀ i ∈ xs, i ∈ d) :
+    setUpdate d xs = d := by
+  unfold setUpdate
+  induction xs with
+  | nil => rfl
+  | cons x r ih =>
+    have hx : setAdd d x = d := by
+      unfold setAdd
+      rw [if_pos (h x (by simp))]
+    simp only [List.foldl_cons, hx]
+    exact ih (fun i hi => h i (by simp [hi]))
+
+theorem subset_of_setUpdate_eq (xs : List Nat) (d : DropSet) (h : setUpdate d xs = d) :
+    ∀ i ∈ xs, i ∈ d := by
+  intro i hi
+  rw [← h, mem_setUpdate]
+  exact Or.inr hi
+
+theorem setUpdate_prefix (xs : List Nat) (s : DropSet) : ∃ t, setUpdate s xs = s ++ t := by
+  unfold setUpdate
+  induction xs generalizing s with
+  | nil => exact ⟨[], by simp⟩
+  | cons x r ih =>
+    simp only [List.foldl_cons]
+    obtain ⟨t, ht⟩ := ih (setAdd s x)
+    unfold setAdd at ht ⊢
+    split
+    · rename_i hx
+      rw [if_pos hx] at ht
+      exact ⟨t, ht⟩
+    · rename_i hx
+      rw [if_neg hx] at ht
+      exact ⟨x :: t, by rw [ht]; simp⟩
+
+/-- a `set.update` that does not make the set longer leaves it as it is -/
+theorem setUpdate_eq_of_length (xs : List Nat) (s : DropSet)
+    (h : (setUpdate s xs).length = s.length) : setUpdate s xs = s := by
+  obtain ⟨t, ht⟩ := setUpdate_prefix xs s
+  rw [ht] at h ⊢
+  have : t = [] := by
+    cases t with
+    | nil => rfl
+    | cons a r => simp at h
+  rw [this, List.append_nil]
+
 theorem mem_insertSorted (x y : Nat) (l : List Nat) : y ∈ insertSorted x l ↔ y = x ∨ y ∈ l := by
   induction l with
   | nil => simp [insertSorted]
